@@ -53,6 +53,10 @@ where
         loop {
             match self.records.next() {
                 Some(r) => {
+                    if r.reference_sequence_id() != Some(self.reference_sequence_id) {
+                        continue;
+                    }
+
                     if let (Some(start), Some(end)) = (r.alignment_start(), r.alignment_end()) {
                         let alignment_interval = (start..=end).into();
 
